@@ -79,8 +79,13 @@ package jpeg
 // offset of that header and the payload length after the Exif prefix (segment length - 8). ASSUMED about the callback:
 // it only consumes forward. The library's own Exif reader consumes its declared length; then the scan resumes at the
 // next marker.
+// ScanJPEG stores its two function parameters into the reader's callback fields unchanged
+//@ dep callback jpeg.ScanJPEG.exifReader = jpeg.jpegReader.ExifReader
+//@ dep callback jpeg.ScanJPEG.xmpReader = jpeg.jpegReader.XMPReader
+
 //@ dep callback jpeg.jpegReader.ExifReader
 //@   names r h -> err
+//@   requires r != nil
 //@   requires [C10 C06] h.FirstIfd == ifds.IFD0 && h.ImageType == imagetype.ImageJPEG
 //@   requires [C10 C06 C07] sigLEat(r, pos(r)) ==> h.ByteOrder == utils.LittleEndian && h.FirstIfdOffset == le32At(r, pos(r) + 4)
 //@   requires [C10 C06 C07] sigBEat(r, pos(r)) ==> h.ByteOrder == utils.BigEndian && h.FirstIfdOffset == be32At(r, pos(r) + 4)
